@@ -156,6 +156,25 @@ CLAIMED = {
               "canonicalisation (unused xmlns declarations left on inner elements are ignored, see DESIGN §6)."),
         technique="Lean 4 proof (mutual structural induction on an inductive noise-insertion relation) + cleanup-pass correspondence + metamorphic conversion search",
         ref="DESIGN.md §4 C14"),
+    "C15": dict(
+        text=("Refinement theorem in Lean for an abstract cached object (tree, optional shape cache, load, store) under the lens "
+              "laws PutGet and PutPut, GetPut deliberately not assumed: sim_step / run_refines — after any history of shape-level "
+              "edits (any shape function), tree-level edits (any tree function), cache-populating queries and re-parse steps the "
+              "serialisation is the fold of the cache-free specification over the initial serialisation; "
+              "history_reparse_irrelevant — inserting serialise/re-parse between every two steps changes nothing; "
+              "copy_receiver_unchanged, copy_result for copying calls; treeNoFlush_breaks and cloneTreeOnly_breaks prove that "
+              "each of the two ways to break the discipline falsifies the refinement (the second is the defect found in "
+              "SVG._clone). The discipline itself is tied to the source by a translator-generated table of all 20 public "
+              "operations (copy form, first self call, return value) and of _clone/_elements/_update_etree/toetree pinned by "
+              "decide. The property is judged on the implementation on every run: all histories of length <= 2 (thorough: <= 3) "
+              "over 46 steps (20 operations x in-place/copying + 6 queries) and random histories up to length 8 on generated "
+              "documents, direct vs re-parsed between steps, canonical XML, receiver identity / receiver unchanged; histories "
+              "over the 19 modelled operations also run through the Lean object model (cache, flush, clone). Not proved: that "
+              "from_element/to_element satisfy PutGet/PutPut and that each concrete operation is an instance of Op.shapes/Op.tree."),
+        note=("Trusted: Lean kernel; standard axioms; tools/opscan.py (syntactic); lxml c14n. Three genuine defects found and "
+              "repaired (062b07e, 4a4317f, 094d35e)."),
+        technique="Lean 4 proof (refinement of a lens-based cache machine to a cache-free spec, by simulation) + generated discipline table + exhaustive/random history differential",
+        ref="DESIGN.md §4 C15"),
     "C16": dict(
         text=("The Lean conversion model has no argument besides the document, the options and the Skia answers, so it is a "
               "function of them by construction; proved on top: (a) the only process-wide state of the code, the lru_cache on "
